@@ -245,3 +245,9 @@ func startWatchdog() {
 		}
 	}()
 }
+
+// replayFn re-executes a stored case through the same check function the
+// generated runs use, without rapid. It returns the violation message, if any.
+type replayFn func(raw json.RawMessage) (msg string, failed bool, err error)
+
+var replayers = map[string]replayFn{}
